@@ -200,28 +200,29 @@ Proof. reflexivity. Qed.
 
 (* the loop, for any order pk of (dst, j, i), given what one iteration does *)
 Lemma enc_while {St R} (pk : list Z -> Z -> Z -> St) (c : St -> M bool) (b : St -> M (ctl St R)) (p : St -> M St) (src : list Z) :
-  (forall k pre x y r, (k < length src)%nat ->
+  (forall k pre x y r, (k < length src)%nat -> length pre = (2 * k)%nat ->
      iter1 c b p (pk (pre ++ x :: y :: r) (Z.of_nat (length pre)) (Z.of_nat k)) =
      Ret (inl (pk (pre ++ hexchar (Z.shiftr (nth k src 0) 4) :: hexchar (Z.land (nth k src 0) 15) :: r)
                   (Z.of_nat (length pre) + 2) (Z.of_nat k + 1)))) ->
   (forall d j, iter1 c b p (pk d j (zlen src)) = Ret (inr (inl (pk d j (zlen src))))) ->
   forall f k pre rest, (k <= length src)%nat -> (length src - k < f)%nat -> (2 * (length src - k) <= length rest)%nat ->
+    length pre = (2 * k)%nat ->
     while f c b p (pk (pre ++ rest) (Z.of_nat (length pre)) (Z.of_nat k)) =
     Ret (inl (pk (pre ++ hex_encode (skipn k src) ++ skipn (2 * (length src - k)) rest)
                  (Z.of_nat (length pre + 2 * (length src - k))) (zlen src))).
 Proof.
-  intros Hstep Hend. induction f as [|f IH]; intros k pre rest Hk Hf Hr; [lia|]. rewrite while_iter.
+  intros Hstep Hend. induction f as [|f IH]; intros k pre rest Hk Hf Hr Hpre; [lia|]. rewrite while_iter.
   destruct (Nat.eq_dec k (length src)) as [->|Hne].
   - fold (zlen src). rewrite Hend, skipn_all, Nat.sub_diag. change (2 * 0)%nat with 0%nat. cbn [bind hex_encode flat_map app skipn]. rewrite Nat.add_0_r. reflexivity.
   - assert (Hlt : (k < length src)%nat) by lia.
     destruct rest as [|x [|y r]]; cbn [length] in Hr; try lia.
-    rewrite (Hstep k pre x y r Hlt). cbn [bind].
+    rewrite (Hstep k pre x y r Hlt Hpre). cbn [bind].
     replace (pre ++ hexchar (Z.shiftr (nth k src 0) 4) :: hexchar (Z.land (nth k src 0) 15) :: r)
       with ((pre ++ [hexchar (Z.shiftr (nth k src 0) 4); hexchar (Z.land (nth k src 0) 15)]) ++ r) by (rewrite <- app_assoc; reflexivity).
     replace (Z.of_nat (length pre) + 2) with (Z.of_nat (length (pre ++ [hexchar (Z.shiftr (nth k src 0) 4); hexchar (Z.land (nth k src 0) 15)])))
       by (rewrite app_length; cbn [length]; lia).
     replace (Z.of_nat k + 1) with (Z.of_nat (S k)) by lia.
-    rewrite IH by (cbn [length] in *; lia).
+    rewrite IH by (rewrite ?app_length; cbn [length] in *; lia).
     rewrite (skipn_cons_nth src k Hlt), hex_encode_cons.
     replace (2 * (length src - k))%nat with (S (S (2 * (length src - S k)))) by lia. cbn [skipn].
     rewrite <- !app_assoc. cbn [app]. rewrite app_length. cbn [length].
@@ -234,11 +235,11 @@ Ltac iter_open := unfold iter1; cbv beta iota.
 Ltac enc_shape pk c b p fuel dst :=
   lazymatch goal with Hb : Forall is_byte ?src |- _ =>
     let H1 := fresh "H1" in let H2 := fresh "H2" in
-    assert (H1 : forall k pre x y r, (k < length src)%nat ->
+    assert (H1 : forall k pre x y r, (k < length src)%nat -> length pre = (2 * k)%nat ->
        iter1 c b p (pk (pre ++ x :: y :: r) (Z.of_nat (length pre)) (Z.of_nat k)) =
        Ret (inl (pk (pre ++ hexchar (Z.shiftr (nth k src 0) 4) :: hexchar (Z.land (nth k src 0) 15) :: r)
                     (Z.of_nat (length pre) + 2) (Z.of_nat k + 1))));
-    [ let k := fresh "k" in let Hk := fresh "Hk" in intros k ? ? ? ? Hk; iter_open;
+    [ let k := fresh "k" in let Hk := fresh "Hk" in intros k ? ? ? ? Hk ?; iter_open;
       pose proof (shiftr4_range _ (nth_byte src k Hb Hk)); pose proof (land15_range _ (nth_byte src k Hb Hk));
       repeat first [ rewrite bind_Ret | decide_if | rewrite (m_get_eq src _ k) by lia | rewrite hextable_get by lia
                    | rewrite m_set_at1 by lia | rewrite m_set_at0 by lia | progress cbv beta iota ];
@@ -246,7 +247,7 @@ Ltac enc_shape pk c b p fuel dst :=
     | assert (H2 : forall d j, iter1 c b p (pk d j (zlen src)) = Ret (inr (inl (pk d j (zlen src)))));
       [ intros; iter_open; repeat first [ rewrite bind_Ret | decide_if | progress cbv beta iota ]; reflexivity
       | let E := fresh "E" in
-        pose proof (enc_while pk c b p src H1 H2 fuel 0%nat [] dst ltac:(lia) ltac:(lia) ltac:(lia)) as E;
+        pose proof (enc_while pk c b p src H1 H2 fuel 0%nat [] dst ltac:(lia) ltac:(lia) ltac:(lia) eq_refl) as E;
         cbn [app length skipn] in E; rewrite Nat.sub_0_r in E; change (Z.of_nat 0) with 0 in E; cbv beta in E; rewrite E; clear E H1 H2 ] ]
   end.
 
@@ -260,7 +261,9 @@ Proof.
   match goal with |- context [while fuel ?c ?b ?p ?s] =>
     first [ enc_shape (fun (d : list Z) (j i : Z) => (d, j, i)) c b p fuel dst | enc_shape (fun (d : list Z) (j i : Z) => (d, i, j)) c b p fuel dst
           | enc_shape (fun (d : list Z) (j i : Z) => (j, d, i)) c b p fuel dst | enc_shape (fun (d : list Z) (j i : Z) => (i, d, j)) c b p fuel dst
-          | enc_shape (fun (d : list Z) (j i : Z) => (j, i, d)) c b p fuel dst | enc_shape (fun (d : list Z) (j i : Z) => (i, j, d)) c b p fuel dst ]
+          | enc_shape (fun (d : list Z) (j i : Z) => (j, i, d)) c b p fuel dst | enc_shape (fun (d : list Z) (j i : Z) => (i, j, d)) c b p fuel dst
+          (* no write cursor in the state: dst[2*i], dst[2*i+1] *)
+          | enc_shape (fun (d : list Z) (j i : Z) => (d, i)) c b p fuel dst | enc_shape (fun (d : list Z) (j i : Z) => (i, d)) c b p fuel dst ]
   end.
   mev. finish_state.
 Qed.
@@ -368,11 +371,12 @@ Ltac hex_cases c :=
   let E := fresh "E" in
   destruct (from_hex c) as [?x|] eqn:E;
   [ apply from_hex_some in E; destruct E as [[? ?]|[[? ?]|[? ?]]]; subst | apply from_hex_none in E; destruct E as (? & ? & ?) ].
-Ltac dec_ev src :=
-  repeat first [ rewrite bind_Ret | rewrite bind_assoc | decide_if | small_wrap
-               | match goal with |- context [m_get src ?e] =>
-                   first [ rewrite (m_get_eq src e (Z.to_nat e)) by lia; rewrite ?Nat2Z.id ] end
-               | progress cbv beta iota ].
+(* index reads of src at 2k / 2k+1, whatever the index expression looks like *)
+Ltac reads src k :=
+  repeat match goal with |- context [m_get src ?e] =>
+    first [ rewrite (m_get_eq src e (2 * k)) by (unfold zlen; lia) | rewrite (m_get_eq src e (2 * k + 1)) by (unfold zlen; lia) ] end.
+Ltac dec_ev src k :=
+  repeat first [ rewrite bind_Ret | rewrite bind_assoc | decide_if | small_wrap | progress reads src k | progress cbv beta iota ].
 
 Ltac dec_shape pk c b p after fuel dst src :=
   let H1 := fresh "H1" in let H2 := fresh "H2" in let H3 := fresh "H3" in let H4 := fresh "H4" in let H5 := fresh "H5" in
@@ -387,25 +391,21 @@ Ltac dec_shape pk c b p after fuel dst src :=
                           (fun d' => Ret (inl (pk d' (Z.of_nat k + 1) (Z.of_nat (2 * k + 1) + 2))))
          end
      end);
-  [ intros k d Hk; iter_open; unfold errk_InvalidByte;
-    replace (Z.of_nat (2 * k + 1) - 1) with (Z.of_nat (2 * k)) by lia;
-    rewrite ?(m_get_eq src _ (2 * k)) by lia;
-    hex_cases (nth (2 * k) src 0); dec_ev src; rewrite ?(m_get_eq src _ (2 * k)) by lia; rewrite ?(m_get_eq src _ (2 * k + 1)) by lia; dec_ev src; try reflexivity;
-    hex_cases (nth (2 * k + 1) src 0); dec_ev src; rewrite ?(m_get_eq src _ (2 * k + 1)) by lia; dec_ev src; try reflexivity;
+  [ let k := fresh "k" in intros k d Hk; iter_open; unfold errk_InvalidByte; reads src k;
+    hex_cases (nth (2 * k) src 0); dec_ev src k; try reflexivity;
+    hex_cases (nth (2 * k + 1) src 0); dec_ev src k; try reflexivity;
     rewrite ?(wrap8_small (Z.shiftl _ 4)) by (apply shiftl4_small; lia);
-    match goal with |- bind ?m _ = _ => destruct m; cbn [bind]; try reflexivity end
+    match goal with |- bind ?m _ = _ => destruct m; cbn [bind]; finish_state end
   | assert (H2 : forall k d, (length src <= 2 * k + 1)%nat ->
        iter1 c b p (pk d (Z.of_nat k) (Z.of_nat (2 * k + 1))) = Ret (inr (inl (pk d (Z.of_nat k) (Z.of_nat (2 * k + 1))))));
-    [ intros; iter_open; dec_ev src; reflexivity
+    [ let k := fresh "k" in intros k ? ?; iter_open; dec_ev src k; reflexivity
     | assert (H3 : forall k d, length src = (2 * k)%nat -> after (inl (pk d (Z.of_nat k) (Z.of_nat (2 * k + 1)))) = Ret (d, (Z.of_nat k, 0)));
-      [ intros; cbv beta iota; rewrite ?Z.rem_mod_nonneg by (unfold zlen; lia); dec_ev src; reflexivity
+      [ let k := fresh "k" in intros k ? ?; cbv beta iota; rewrite ?Z.rem_mod_nonneg by (unfold zlen; lia); dec_ev src k; reflexivity
       | assert (H4 : forall k d, length src = (2 * k + 1)%nat ->
            after (inl (pk d (Z.of_nat k) (Z.of_nat (2 * k + 1)))) =
            Ret (d, (Z.of_nat k, match from_hex (nth (2 * k) src 0) with None => errk_InvalidByte (nth (2 * k) src 0) | Some _ => errk_ErrLength end)));
-        [ intros k d Hk; cbv beta iota; unfold errk_InvalidByte, errk_ErrLength; rewrite ?Z.rem_mod_nonneg by (unfold zlen; lia);
-          replace (Z.of_nat (2 * k + 1) - 1) with (Z.of_nat (2 * k)) by lia;
-          dec_ev src; rewrite ?(m_get_eq src _ (2 * k)) by lia;
-          hex_cases (nth (2 * k) src 0); dec_ev src; rewrite ?(m_get_eq src _ (2 * k)) by lia; dec_ev src; reflexivity
+        [ let k := fresh "k" in intros k d Hk; cbv beta iota; unfold errk_InvalidByte, errk_ErrLength; rewrite ?Z.rem_mod_nonneg by (unfold zlen; lia);
+          dec_ev src k; hex_cases (nth (2 * k) src 0); dec_ev src k; reflexivity
         | assert (H5 : forall v, after (inr v) = Ret v) by (intros; reflexivity);
           let E := fresh "E" in
           pose proof (dec_while pk c b p after src H1 H2 H3 H4 H5 fuel 0%nat [] dst ltac:(lia) ltac:(lia) eq_refl) as E;
@@ -425,7 +425,9 @@ Proof.
   match goal with |- bind (while fuel ?c ?b ?p ?s) ?after = _ =>
     first [ dec_shape (fun (d : list Z) (i j : Z) => (d, i, j)) c b p after fuel dst src | dec_shape (fun (d : list Z) (i j : Z) => (d, j, i)) c b p after fuel dst src
           | dec_shape (fun (d : list Z) (i j : Z) => (i, d, j)) c b p after fuel dst src | dec_shape (fun (d : list Z) (i j : Z) => (j, d, i)) c b p after fuel dst src
-          | dec_shape (fun (d : list Z) (i j : Z) => (i, j, d)) c b p after fuel dst src | dec_shape (fun (d : list Z) (i j : Z) => (j, i, d)) c b p after fuel dst src ]
+          | dec_shape (fun (d : list Z) (i j : Z) => (i, j, d)) c b p after fuel dst src | dec_shape (fun (d : list Z) (i j : Z) => (j, i, d)) c b p after fuel dst src
+          (* no read cursor in the state: src[2*i], src[2*i+1] *)
+          | dec_shape (fun (d : list Z) (i j : Z) => (d, i)) c b p after fuel dst src | dec_shape (fun (d : list Z) (i j : Z) => (i, d)) c b p after fuel dst src ]
   end.
   reflexivity.
 Qed.
